@@ -28,7 +28,7 @@ EXPLANATION = ("Header layout from rustc's layout; each emitting operation's hea
                "guarded expressions and folded over enumerated counter values including post-wrap values; the ring buffer's copy ranges "
                "are folded for all small capacities and compared with modular indexing.")
 CONFIGS = ['def', 'alloc', 'def-rel']    # these drivers need the `alloc` feature
-FLOORS = {'emitting_ops': 6, 'credit_rows': 100, 'ring_rows': 300}
+FLOORS = {'credit_refresh_sites': 1, 'emitting_ops': 6, 'credit_rows': 100, 'ring_rows': 300}
 SOCK = 'device::socket::vsock::VirtIOSocket'
 HDR_OFFS = {'src_cid': 0, 'dst_cid': 8, 'src_port': 16, 'dst_port': 20, 'len': 24, 'socket_type': 28, 'op': 30, 'flags': 32, 'buf_alloc': 36, 'fwd_cnt': 40}
 OPS = {'Request': 1, 'Response': 2, 'Rst': 3, 'Shutdown': 4, 'Rw': 5, 'CreditUpdate': 6, 'CreditRequest': 7}
@@ -45,6 +45,7 @@ def run(F, R):
         return
     v2_v3(F, R, M, roles, hdr)
     v4_credit(F, R)
+    v7_credit_from_every_packet(F, R)
     v5_fwd(F, R)
     v6_ring(F, R)
 
@@ -406,6 +407,50 @@ def v4_credit(F, R):
             R.check(bad is None, 'V4', 'credit-request-flag-cleared-by-update', fn_site(F, b['id']),
                     'has-pending-credit-request is cleared exactly on CreditUpdate', 'pending credit request bookkeeping: %s; a refused send then either repeats the request '
                     'while one is outstanding or never asks again' % bad)
+
+
+def v7_credit_from_every_packet(F, R):
+    """Every incoming packet carries the peer's credit (buf_alloc / fwd_cnt are in every header): where the stored
+    connection info is refreshed from an event, a refreshing path exists for every kind of event."""
+    ci = 'device::socket::vsock::ConnectionInfo'
+    upd = [b['id'] for b in F.bodies.values() if b.get('impl_adt') == ci and b.get('pub') and 'VsockEvent' in b.get('sig', '') and F.handwritten(b)]
+    et = [n_ for n_ in F.adts if n_.endswith('::VsockEventType')]
+    variants = {v['name']: int(v['discr']) for v in F.adts[et[0]]['variants']} if et else {}
+    n = 0
+    for b in F.bodies.values():
+        if not F.handwritten(b) or b['id'] in upd:
+            continue
+        if not any(bl['term']['k'] == 'call' and bl['term'].get('fn') in upd for bl in b['blocks']):
+            continue
+        sg = supergraph(F, b['id'], opaque=lambda t, bb: bb['id'] != b['id'], tag='v7')
+        where = fn_site(F, b['id'])
+        try:
+            paths = [p for p in PathEnum(sg).run() if not p.panicked]
+        except PathLimit as e:
+            R.abstain('V4', '%s:credit-refreshed-for-every-event' % b['id'], str(e), where)
+            continue
+        n += 1
+        missing = []
+        for name, v in sorted(variants.items(), key=lambda kv: kv[1]):
+            ok = False
+            for p in paths:
+                if not any(e[0] == 'call' and e[2] in upd for e in p.effects):
+                    continue
+                consistent = True
+                for disc, (kind, vals), _ in p.conds:
+                    if disc[0] == 'discr' and 'event_type' in fmt(disc):
+                        if (kind == 'in' and v not in vals) or (kind == 'notin' and v in vals):
+                            consistent = False
+                if consistent:
+                    ok = True
+                    break
+            if not ok:
+                missing.append(name)
+        R.check(not missing and bool(variants), 'V4', '%s:credit-refreshed-for-every-event' % b['id'], where,
+                'the peer credit is refreshed for each of the %d event kinds' % len(variants),
+                'the stored peer credit is never refreshed from %s events: credit carried by those packets - e.g. a reduced buf_alloc in a '
+                'data packet - is ignored and the next send may exceed what the peer advertised' % '/'.join(missing))
+    R.count('credit_refresh_sites', n)
 
 
 def v5_fwd(F, R):
